@@ -153,7 +153,7 @@ func genDDLCase(t *rapid.T) DDLCase {
 		c.Opts = append(c.Opts, "readonly")
 	}
 	if rapid.Bool().Draw(t, "prefix") {
-		c.Opts = append(c.Opts, rapid.SampledFrom([]string{"s3_prefix='/p1'", "s3_prefix=p2", "s3_prefix='a/b/'", "s3_prefix=\"q\""}).Draw(t, "prefixv"))
+		c.Opts = append(c.Opts, rapid.SampledFrom([]string{"s3_prefix='/p1'", "s3_prefix=p2", "s3_prefix='a/b/'", "s3_prefix=\"q\"", "s3_prefix='2024data'", "s3_prefix=7"}).Draw(t, "prefixv"))
 	}
 	c.OptOrder = rapid.Permutation(seq(len(c.Opts)+3)).Draw(t, "order")
 	if rapid.IntRange(0, 1).Draw(t, "mutate") == 0 {
@@ -161,7 +161,7 @@ func genDDLCase(t *rapid.T) DDLCase {
 			"unknown-option", "duplicate-option", "option-without-value", "non-numeric-epn", "non-numeric-cache",
 			"missing-columns", "empty-columns", "composite-key", "two-keys", "key-names-no-column",
 			"unique", "default", "duplicate-column", "duplicate-column-case", "unbalanced-quote",
-			"endpoint-without-bucket", "storage-refuses-open",
+			"endpoint-without-bucket", "storage-refuses-open", "text-after-quoted-value", "text-after-quoted-value",
 		}).Draw(t, "mutation")
 		c.MutArg = rapid.IntRange(0, 100).Draw(t, "mutarg")
 	}
@@ -258,6 +258,8 @@ func (c DDLCase) args(bucket string) ([]string, bool) {
 			return nil, false
 		}
 		cols += ", " + quoteIdent(sw)
+	case "text-after-quoted-value":
+		// rendered below: more text in the same argument after the closing quote
 	case "endpoint-without-bucket", "storage-refuses-open":
 		// rendered below / by the runner: every argument parses, the open is what fails
 	case "dangling-comma":
@@ -267,7 +269,13 @@ func (c DDLCase) args(bucket string) ([]string, bool) {
 	}
 	var all []string
 	if includeColumns {
-		all = append(all, "columns='"+strings.ReplaceAll(cols, "'", "''")+"'")
+		arg := "columns='" + strings.ReplaceAll(cols, "'", "''") + "'"
+		if c.Mutation == "text-after-quoted-value" {
+			// (only for columns=: the same in an option value, s3_prefix='p'q, is taken as raw
+			// text by the pinned code — a tolerated leniency like the dangling comma, not demanded)
+			arg += []string{" extra not null", " primary key(nosuch)", "x", " unique", " 'more'"}[c.MutArg%5]
+		}
+		all = append(all, arg)
 	}
 	if c.Mutation == "endpoint-without-bucket" {
 		all = append(all, "s3_endpoint='verif://ddl'")
@@ -448,6 +456,19 @@ func runDDL(c DDLCase, o *Obs) error {
 			return fmt.Errorf("%s\ncolumn %q does not give the value written to it: %v (err %v)", q, col.Name, r, err)
 		}
 	}
+	// what was written lies under the given prefix (as written, minus quotes and outer slashes)
+	for _, a := range args {
+		if !strings.HasPrefix(a, "s3_prefix=") {
+			continue
+		}
+		want := strings.Trim(strings.Trim(strings.TrimPrefix(a, "s3_prefix="), "'\""), "/")
+		for _, k := range store.Keys("") {
+			if !strings.HasPrefix(k, want+"/s3db-rows/") {
+				return fmt.Errorf("%s\nstored object %s is not under the prefix %q", q, k, want)
+			}
+		}
+		o.Class("prefix-checked")
+	}
 	if keyIdx >= 0 {
 		vals[keyIdx] = nil
 		e := conn.Exec("insert into "+tn+" values ("+ph+")", vals...)
@@ -461,7 +482,7 @@ func runDDL(c DDLCase, o *Obs) error {
 func init() { register("TestC20_DDL", runDDL) }
 
 func TestC20_DDL(t *testing.T) {
-	st := newStats(t, "C20", "TestC20_DDL", "argument lists from a grammar of the documented surface: columns='<name> [text|varchar|integer|number|real] [primary key] [not null], ...' or a trailing primary key(<name>), names plain / single-quoted / double-quoted (spaces, keywords, non-ASCII, embedded quote), keyword case and whitespace varied, options entries_per_node / node_cache_entries / readonly / s3_prefix (quoted or not) in any order; half of the cases carry one mutation: unknown / duplicated option, option without value, non-numeric N, missing or empty columns, composite key, two keys, key naming no column, UNIQUE, DEFAULT, duplicate column (exact and case-insensitive), unbalanced quote, s3_endpoint without s3_bucket, or a valid list whose open is refused by the bucket (every request fails). Accept: pragma table_info (name, notnull, pk) equals a native table declared from the same specification with proper quoting, rows come back under those names, NULL key refused. Reject: error, table not registered, no PUT/DELETE, and the corrected definition of the same name then succeeds; non-trivial = a name that needs quoting, or any rejected list")
+	st := newStats(t, "C20", "TestC20_DDL", "argument lists from a grammar of the documented surface: columns='<name> [text|varchar|integer|number|real] [primary key] [not null], ...' or a trailing primary key(<name>), names plain / single-quoted / double-quoted (spaces, keywords, non-ASCII, embedded quote), keyword case and whitespace varied, options entries_per_node / node_cache_entries / readonly / s3_prefix (quoted or not) in any order; half of the cases carry one mutation: unknown / duplicated option, option without value, non-numeric N, missing or empty columns, composite key, two keys, key naming no column, UNIQUE, DEFAULT, duplicate column (exact and case-insensitive), unbalanced quote, more text after the closing quote of a quoted value, s3_endpoint without s3_bucket, or a valid list whose open is refused by the bucket (every request fails). Accept: pragma table_info (name, notnull, pk) equals a native table declared from the same specification with proper quoting, rows come back under those names, NULL key refused. Reject: error, table not registered, no PUT/DELETE, and the corrected definition of the same name then succeeds; non-trivial = a name that needs quoting, or any rejected list")
 	checkRapid(t, st, genDDLCase, runDDL)
 }
 
